@@ -69,6 +69,8 @@ def explore(program, run_one, grammar_factory, max_paths=None, prefixes=None, on
             g.interp = I
         try:
             val = run_one(I)
+            if not ctx.check():
+                raise Infeasible('path condition unsatisfiable at path end (grammar constraint)')
             res = PathResult(ctx.trace, 'ok', val, ctx, I)
         except Panic as e:
             res = PathResult(ctx.trace, 'panic', None, ctx, I, e)
